@@ -211,3 +211,123 @@ def c06_rows_tile_object():
         ("gap-row-span-equals-stated-length", pc + [r.is_gap], a["object_end"] - a["object_beg"] + 1 == a["gap_length"]),
         ("last-end-is-scaffold-length", [n > 0, i == n - 1], a["object_end"] == rows.cum(n)),
     ]
+
+
+def c14_reverse_is_involution():
+    """C14: 'Reversing a scaffold twice gives back the original rows, and one reversal preserves length, gap rows,
+    contig intervals and tags while inverting row order and every strand' - from the contract of Scaffold.reverse
+    (rows-reversed) applied twice, for row lists of any length."""
+    from pyvc.spec import ListView
+    from pyvc.values import ROW
+    from .scaffold import reversed_of
+
+    st = State()
+    a, b, c = (ListView(st, z3.Int(n), ROW) for n in ("rowsA", "rowsB", "rowsC"))
+    k = z3.Int("k")
+    pc = [reversed_of(b, a), reversed_of(c, b), 0 <= k, k < a.len, a.len >= 0]
+    x, y, m = a[k], c[k], b[a.len - 1 - k]
+    same_row = z3.If(x.is_gap, y.z == x.z, z3.And(y.is_frag, y.name == x.name, y.start == x.start, y.end == x.end, y.strand == x.strand, y.tags == x.tags))
+    return [
+        ("twice-gives-back-the-rows", pc, z3.And(c.len == a.len, same_row)),
+        ("one-reversal-inverts-order-and-strand", pc, z3.If(x.is_gap, m.z == x.z,
+                                                           z3.And(m.is_frag, m.name == x.name, m.start == x.start, m.end == x.end, m.tags == x.tags, m.strand == -x.strand))),
+        ("length-of-each-row-preserved", pc, m.length == x.length),
+    ]
+
+
+def _complement_table():
+    """the two literals of IUPAC_COMPLEMENT = bytes.maketrans(a, b), read from the current source"""
+    import ast
+
+    from pyvc import source
+
+    mi = source.load("tola.fasta.simple")
+    node = mi.consts["IUPAC_COMPLEMENT"]
+    if not (isinstance(node, ast.Call) and ast.unparse(node.func) == "bytes.maketrans" and len(node.args) == 2):
+        raise ValueError("IUPAC_COMPLEMENT is no longer bytes.maketrans(<literal>, <literal>)")
+    a, b = (ast.literal_eval(x) for x in node.args)
+    if len(a) != len(b):
+        raise ValueError("maketrans arguments of different length")
+    return a, b
+
+
+def c14_complement_table():
+    """C14: 'reverse-complementing any byte string twice returns it unchanged', 'case-preserving IUPAC'.  The
+    translation table is rebuilt from the literals in the source as an SMT array and decided for all 256 byte
+    values; reverse_complement(x) = x[::-1].translate(T), so rc(rc(x))[i] = T[T[x[i]]]."""
+    a, b = _complement_table()
+    T = z3.K(smt.Int, z3.IntVal(-1))
+    x = z3.Int("x")
+    ident = z3.Array("ident", smt.Int, smt.Int)
+    tbl = ident
+    for p, q in zip(a, b):
+        tbl = z3.Store(tbl, p, q)
+    pc = [z3.ForAll([x], ident[x] == x), 0 <= x, x < 256]
+    # independent statement of the IUPAC complement (upper case; lower case likewise; all else unchanged)
+    pairs = {"A": "T", "C": "G", "G": "C", "T": "A", "R": "Y", "Y": "R", "M": "K", "K": "M", "S": "S", "W": "W", "H": "D", "D": "H", "B": "V", "V": "B", "N": "N"}
+    want = ident
+    for u, w in pairs.items():
+        want = z3.Store(want, ord(u), ord(w))
+        want = z3.Store(want, ord(u.lower()), ord(w.lower()))
+    is_upper = lambda t: z3.And(65 <= t, t <= 90)
+    is_lower = lambda t: z3.And(97 <= t, t <= 122)
+    return [
+        ("involution-on-every-byte", pc, tbl[tbl[x]] == x),
+        ("is-the-iupac-complement", pc, tbl[x] == want[x]),
+        ("case-preserving", pc, z3.And(is_upper(x) == is_upper(tbl[x]), is_lower(x) == is_lower(tbl[x]))),
+        ("stays-a-byte", pc, z3.And(0 <= tbl[x], tbl[x] < 256)),
+    ]
+
+
+def c14_stream_of_reversal_is_revcomp():
+    """C14: 'Streaming a reversed scaffold yields exactly the reverse complement of streaming the original'.
+    Over the contracts: content of a row is fwd(interval) for strand != -1, rc(fwd(interval)) for strand -1
+    (get_sequence_iter / rev_chunks), N^length for a gap; Scaffold.reverse inverts order and strands.  Bytes are an
+    abstract monoid with rc an involutive anti-homomorphism (rc(x+y) = rc(y)+rc(x), by the index algebra of
+    x[::-1].translate(T)) and rc(N^k) = N^k (T['N'] = 'N', lemma c14_complement_table).  Induction over the rows:
+    base and step.  Domain: strands +1 / -1 (a strand-0 row is the known finding C14-strand0-reversal)."""
+    B = z3.DeclareSort("Bytes")
+    cat = z3.Function("cat", B, B, B)
+    rc = z3.Function("rc", B, B)
+    empty = z3.Const("empty", B)
+    x, y, z = z3.Consts("bx by bz", B)
+    ax = [
+        z3.ForAll([x, y, z], cat(cat(x, y), z) == cat(x, cat(y, z))),
+        z3.ForAll([x], z3.And(cat(empty, x) == x, cat(x, empty) == x)),
+        z3.ForAll([x, y], rc(cat(x, y)) == cat(rc(y), rc(x))),
+        z3.ForAll([x], rc(rc(x)) == x),
+        rc(empty) == empty,
+    ]
+    # one row r and the content of the rows before it (prefix) in the original scaffold S = prefix + [r]
+    cr, crr, pre, rpre = z3.Consts("content_r content_rev_r content_prefix content_rev_prefix", B)
+    strand = z3.Int("strand")
+    isgap = z3.Bool("row_is_gap")
+    fwd = z3.Const("fwd_interval", B)
+    nrun = z3.Const("n_run", B)
+    row = [
+        z3.Implies(isgap, z3.And(cr == nrun, crr == nrun, rc(nrun) == nrun)),
+        z3.Implies(z3.And(z3.Not(isgap), strand == 1), z3.And(cr == fwd, crr == rc(fwd))),   # reversed row has strand -1
+        z3.Implies(z3.And(z3.Not(isgap), strand == -1), z3.And(cr == rc(fwd), crr == fwd)),  # reversed row has strand +1
+        z3.Or(isgap, strand == 1, strand == -1),
+    ]
+    ih = rpre == rc(pre)  # content(reverse(prefix)) == rc(content(prefix))
+    return [
+        ("row", ax + row, crr == rc(cr)),
+        ("induction-base", ax, rc(empty) == empty),
+        # reverse(prefix + [r]) = [rev r] + reverse(prefix)
+        ("induction-step", ax + row + [ih], cat(crr, rpre) == rc(cat(pre, cr))),
+    ]
+
+
+def c03_chunks_cover_the_row():
+    """C03/C13 over the chunk contracts: the chunks of a row are non-overlapping, in order, each at most one
+    buffer long, and together exactly the row (closed form of the running total used by write_scaffold)."""
+    B, T, k, q, r = z3.Ints("B T k q r")
+    from .fasta import chunk_len
+
+    pc = [B >= 1, T >= 1, T - 1 == B * q + r, 0 <= r, r < B, 0 <= k, k <= q]
+    return [
+        ("chunk-within-buffer", pc, z3.And(chunk_len(T, B, k) >= 1, chunk_len(T, B, k) <= B)),
+        ("chunks-abut", pc + [k < q], k * B + chunk_len(T, B, k) == (k + 1) * B),
+        ("last-chunk-ends-the-row", pc + [k == q], k * B + chunk_len(T, B, k) == T),
+    ]
